@@ -26,3 +26,12 @@ META["C01"] = M(
          "the generic densification path, shape, operator dtype and result dtypes; distinct = distinct canonical structure "
          "(kinds, shapes, dtypes, flags, construction route) + operand dtype/rank; non-trivial = nesting depth >= 1 or an "
          "operand dtype different from the operator's")
+
+META["C02"] = M(
+    shards={"quick": 16, "thorough": 64}, budget={"quick": 45, "thorough": 800},
+    floors={"quick": {"evals": 20000, "distinct": 800}, "thorough": {"evals": 1500000, "distinct": 40000}},
+    required=["tower-dense", "tower-right", "tower-left-vec", "tower-left-mat", "left-product", "involution"],
+    rule="random operator-expression trees (as C01) plus truly self-adjoint / PSD / unitary leaves declared as such (real and "
+         "complex Hermitian) and composites of them; every tower of .T/.H up to depth 3 (all 14 in thorough, 5 sampled in quick) "
+         "judged through to_dense, right product and left products (1-D and 2-D) against the reference; A.T.T / A.H.H judged for "
+         "matrix, shape, dtype and annotations; distinct = canonical structure + towers + operand dtype")
